@@ -84,6 +84,47 @@ Theorem C04_ig_complete_quadratic :
 Proof. exact ig_complete_quadratic. Qed.
 Print Assumptions C04_ig_complete_quadratic.
 
+(* "for smooth models the gap shrinks as steps grows" — provable content, on the F-cubic family
+   s(x,t) = fquad ks x t + sum_c t_c sum_i A_ci x_i^3 : the completeness gap of the model of explain is EXACTLY
+   K(x, baseline) / (m-1)^2 with K = 1/2 sum_i (sum_c t_c A_ci) (x_i - baseline)^3 independent of m and of the
+   batch size ... *)
+Theorem C04_ig_gap_cubic :
+  forall n m bs bv ks As xs ts,
+    bs_ok bs -> (2 <= m)%nat -> xs <> [] -> (forall x, In x xs -> length x = n) ->
+    map qsum (ig (fcubic_grad ks As) n m bs bv xs ts)
+    = map2 (fun x t => fcubic ks As x t - fcubic ks As (repeat bv n) t
+          + (qsum (map (fun i => cube_coef As t i * ((nthq x i - bv) * (nthq x i - bv) * (nthq x i - bv))) (seq 0 n)) / two)
+            / (qn (m - 1) * qn (m - 1))) xs ts.
+Proof. exact ig_gap_cubic. Qed.
+Print Assumptions C04_ig_gap_cubic.
+
+(* ... hence strictly decreasing in absolute value as steps grows (and identically 0 when K = 0) *)
+Theorem C04_gap_strictly_decreasing :
+  forall (K : Qc) m m', (2 <= m)%nat -> (m < m')%nat -> K <> 0 ->
+    Qcabs (K / (qn (m' - 1) * qn (m' - 1))) < Qcabs (K / (qn (m - 1) * qn (m - 1))).
+Proof. exact gap_strictly_decreasing. Qed.
+Print Assumptions C04_gap_strictly_decreasing.
+
+(* trapezoidal average of a gradient that is quadratic in alpha: exact integral plus w / (6 (m-1)^2) *)
+Theorem C04_trapezoid_quadratic :
+  forall m (g : nat -> Qc) u v w, (2 <= m)%nat ->
+    (forall k, (k < m)%nat -> g k = u + (qn k / qn (m - 1)) * v + (qn k / qn (m - 1)) * (qn k / qn (m - 1)) * w) ->
+    qsum (map (fun k => (g k + g (S k)) / two) (seq 0 (m - 1))) / qn (m - 1)
+    = u + v / two + w / three + w / (two * three * (qn (m - 1) * qn (m - 1))).
+Proof. exact trapezoid_quadratic. Qed.
+Print Assumptions C04_trapezoid_quadratic.
+
+(* channel harmonisation keeps completeness: reducer "sum" preserves the total, the default reducer "mean"
+   divides it by the number of channels C (H*W*C scalars per input) *)
+Theorem C04_reducer_sum_total : forall c e, qsum (harmonize RSum c e) = qsum e.
+Proof. exact harmonize_sum_total. Qed.
+Print Assumptions C04_reducer_sum_total.
+
+Theorem C04_reducer_mean_total :
+  forall c k e, (2 <= c)%nat -> length e = (k * c)%nat -> qn c * qsum (harmonize RMean c e) = qsum e.
+Proof. exact harmonize_mean_total. Qed.
+Print Assumptions C04_reducer_mean_total.
+
 (* non-vacuity: 2 inputs of 4 features, steps = 5, batch_size = 3 < steps, baseline -1/2, a quadratic with a
    cross term and real-valued targets meet the hypotheses; completeness evaluates to concrete non-zero values *)
 Example C04_nonvacuous :
